@@ -152,6 +152,35 @@ def e2e(ctx):
             ctx.violation(f"C10|e2e|clean-PASS-with-{opt}-cut",
                           f"exploration was cut by --{opt} {val} (a failing path exists beyond the cut) but PASS came without the "
                           f"incomplete-execution warning", {"option": opt, "value": val, "stdout": run.stdout[-600:]})
+    # a path stopped by an unsupported feature inside a NESTED frame (the test calls a helper of its own contract): the
+    # stop must surface as a non-PASS status / warning exactly as it does at the top level
+    def self_call(sig):
+        return (asm.selector_word(asm.selector(sig)) + [("push", 0), "MSTORE",
+                ("push", 0), ("push", 0), ("push", 4), ("push", 0), ("push", 0), "ADDRESS", "GAS", "CALL", "POP"])
+
+    stoppers = {
+        "blobhash": [("push", 0), ("raw", b"\x49"), "POP", "STOP"],
+        "blobbasefee": [("raw", b"\x4a"), "POP", "STOP"],
+        "symbolic-mload-offset": asm.svm_create_uint256(b"o") + ["MLOAD", "POP", "STOP"],
+    }
+    for tag, body in stoppers.items():
+        for depth in (0, 1, 2):
+            fns = [Fn("helper()", body), Fn("helper2()", self_call("helper()") + ["STOP"])]
+            test_body = {0: body, 1: self_call("helper()") + ["STOP"], 2: self_call("helper2()") + ["STOP"]}[depth]
+            c = TestContract("StuckT", fns + [Fn("check_stop(uint256 n)", test_body)])
+            try:
+                run = run_contract_offline(c)
+            except Exception as e:  # noqa: BLE001
+                ctx.note(f"nested-stuck case error ({tag}, depth {depth}): {type(e).__name__}: {e}")
+                continue
+            r = [x for x in run.results if "check_stop" in x.name][0]
+            ctx.case(("e2e-nested-stuck", tag, depth))
+            ctx.count(f"e2e:nested-stuck:{tag}:depth{depth}:exit{r.exitcode}")
+            if r.exitcode == 0 and not (warned(run, "Unsupported") or warned(run, "symbolic") or warned(run, "incomplete")):
+                ctx.violation(f"C10|e2e|clean-PASS-with-stuck-path|{tag}|depth{depth}",
+                              f"a path of check_stop is stopped by an unsupported feature ({tag}) at call depth {depth} "
+                              f"but the test is reported PASS without any warning",
+                              {"stopper": tag, "depth": depth, "stdout": run.stdout[-600:]})
     # setUp with a symbolic-count loop (via a symbolic value created in setUp)
     setup_body = (asm.svm_create_uint256(b"s") + [("push", 7), "AND", ("label", "st"), "DUP1", "ISZERO", ("ref", "se"), "JUMPI",
                                                   ("push", 1), "SWAP1", "SUB", ("ref", "st"), "JUMP", ("label", "se"), "POP"])
